@@ -356,6 +356,37 @@ func (m *maskInterp) run(st *interpState, b, pred *ssa.BasicBlock) {
 					st.env[x] = &symVal{kind: skSum, sum: []sumTerm{{a.w, "math/bits." + cname(sc)}}}
 					continue
 				}
+				// a pure one-block helper over words (`func wordContains(w, sub uint64) bool { return w&sub == sub }`) is inlined
+				if sc != nil && theProg != nil && theProg.isArche(sc) && len(sc.Blocks) == 1 && len(sc.Params) == len(x.Call.Args) {
+					okInl := true
+					for i, pr := range sc.Params {
+						st.env[pr] = m.val(st, x.Call.Args[i])
+					}
+					var res *symVal
+					for _, hi := range sc.Blocks[0].Instrs {
+						switch h := hi.(type) {
+						case *ssa.BinOp:
+							st.env[h] = m.binop(h.Op, m.val(st, h.X), m.val(st, h.Y))
+						case *ssa.Convert:
+							st.env[h] = m.val(st, h.X)
+						case *ssa.ChangeType:
+							st.env[h] = m.val(st, h.X)
+						case *ssa.DebugRef:
+						case *ssa.Return:
+							if len(h.Results) == 1 {
+								res = m.val(st, h.Results[0])
+							} else {
+								okInl = false
+							}
+						default:
+							okInl = false
+						}
+					}
+					if okInl && res != nil {
+						st.env[x] = res
+						continue
+					}
+				}
 				name := "?"
 				if sc != nil {
 					name = cname(sc)
